@@ -32,6 +32,7 @@ def run(tier, seed):
                                  "--cpus", "2", "--keys", str(rng.choice([3, 4])), "--ttl", "1",
                                  "--end", "leak", "--flushpct", "10", "--maximages", "700",
                                  "--nested", "10" if tier == "quick" else "25"]))
+    jobs += ce.full_device_jobs(rng, 4 if tier == "quick" else 24, extra=["--nested", "10" if tier == "quick" else "25"], maximages="500")
     # MC: recovery as interruptible steps (journal replay, scan, retirement in chunks of JMax), crashes at
     # any point, nested; the variant with the pre-fix retirement order must fail (model sanity)
     mcr = ce.mc_model(rd, "MCRecovery", "MCRecovery_quick.cfg" if tier == "quick" else "MCRecovery_full.cfg")
